@@ -157,6 +157,10 @@ func registerGoldmark() {
 // native object.
 func (in *Interp) invokeNative(fr *frame, recv Native, method string, args []Value) Value {
 	switch x := recv.X.(type) {
+	case error:
+		if method == "Error" {
+			return Str{S: x.Error()}
+		}
 	case goldmark.Markdown:
 		if method == "Convert" {
 			src := args[0].(Slice)
@@ -316,8 +320,8 @@ func registerJSON() {
 			case err == io.ErrUnexpectedEOF:
 				return in.globalIface("io", "ErrUnexpectedEOF"), true
 			}
-			mc := &marshalCtx{in: in, memo: map[unsafe.Pointer]Ptr{}}
-			return mc.fromNative(reflect.ValueOf(&err).Elem(), fn.Signature.Results().At(0).Type()), true
+			// other decoder errors stay native (their Error methods use reflection)
+			return Iface{T: nativeOpaqueType, V: Native{err}}, true
 		}
 		mc := &marshalCtx{in: in, memo: map[unsafe.Pointer]Ptr{}}
 		*ptr = mc.fromNative(nv.Elem(), pt.Elem())
